@@ -36,7 +36,7 @@ REAL_VS_STUB = {
 }
 
 KINDS = ["megacomplex", "data_io", "project_io", "base_class", "base_inst"]
-SHORTS = ["fmt", "alt", "yaml", "a.b"]
+SHORTS = ["fmt", "alt", "yaml", "yml", "a.b"]
 CASED = ["DAT", "Fmt"]  # registries are case-sensitive; so must format inference be
 CLASSES = [("vp_a", "P1"), ("vp_a", "P2"), ("vp_b", "P1"), ("vp_b", "P3"), ("vp_c.sub", "P1")]
 
@@ -52,9 +52,11 @@ def gen_op(rng: random.Random, kind: str) -> dict:
     if r < 0.34:
         nkeys = rng.choice([1, 1, 2, 3]) if inst else 1
         keys = [
-            (rng.choice(SHORTS[:3]) if rng.random() < 0.85 else rng.choice(CASED)) if rng.random() < 0.93 else "a.b"
+            (rng.choice(SHORTS[:4]) if rng.random() < 0.85 else rng.choice(CASED)) if rng.random() < 0.93 else "a.b"
             for _ in range(nkeys)
         ]
+        if rng.random() < 0.06:
+            keys[rng.randrange(nkeys)] = "@full"
         op = {"op": "REG", "keys": keys, "cls": rng.randrange(len(CLASSES))}
         if inst and rng.random() < 0.12:
             op["ctor_raises_at"] = rng.randrange(nkeys)
@@ -63,36 +65,36 @@ def gen_op(rng: random.Random, kind: str) -> dict:
         target = rng.choice(["known", "known", "known", "plain", "plain", "unknown", "short_as_full"])
         return {
             "op": "SET",
-            "key": rng.choice(SHORTS),
+            "key": rng.choice(SHORTS) if rng.random() < 0.85 else "@full",
             "target": target,
             "cls": rng.randrange(len(CLASSES)),
-            "fmt": rng.choice(SHORTS[:3]),
+            "fmt": rng.choice(SHORTS[:4]),
         }
     if r < 0.72:
         return {
             "op": "GET",
             "by": rng.choice(["short", "short", "full", "plain", "unknown"]),
-            "key": rng.choice(SHORTS[:3] + CASED),
+            "key": rng.choice(SHORTS[:4] + CASED),
             "cls": rng.randrange(len(CLASSES)),
-            "fmt": rng.choice(SHORTS[:3]),
+            "fmt": rng.choice(SHORTS[:4]),
         }
     if r < 0.80:
         return {"op": "KNOWN", "full_names": rng.random() < 0.5}
     if r < 0.86:
-        return {"op": "IS_KNOWN", "key": rng.choice(SHORTS[:3] + ["nope"])}
+        return {"op": "IS_KNOWN", "key": rng.choice(SHORTS[:4] + ["nope"])}
     if r < 0.89:
         return {
             "op": "METHOD",
             "fn": rng.choice(["load", "save"]),
             "what": rng.choice(["dataset", "model", "parameters", "scheme", "result"]),
-            "key": rng.choice(SHORTS[:3] + CASED + ["nope"]),
+            "key": rng.choice(SHORTS[:4] + CASED + ["nope"]),
         }
     return {
         "op": "DISPATCH",
         "fn": rng.choice(["load", "save"]),
         "what": rng.choice(["dataset", "model", "parameters", "scheme", "result"]),
         "ext": rng.choice(["fmt", "alt", "yml", "yaml", "zzz", "DAT", "Fmt", "YML"]),
-        "explicit": rng.choice([None, None, None, "fmt", "alt", "yaml", "nope", "DAT"]),
+        "explicit": rng.choice([None, None, None, "fmt", "alt", "yaml", "yml", "nope", "DAT"]),
     }
 
 
@@ -111,6 +113,8 @@ def reduced_alphabet(kind: str) -> list[dict]:
     else:
         ops.append({"op": "REG", "keys": ["alt"], "cls": 0})
     ops.append({"op": "REG", "keys": ["a.b"], "cls": 0})
+    ops.append({"op": "REG", "keys": ["@full"], "cls": 1})
+    ops.append({"op": "SET", "key": "@full", "target": "known", "cls": 1, "fmt": "fmt"})
     for c in (0, 1, 2):
         ops.append({"op": "SET", "key": "fmt", "target": "known", "cls": c, "fmt": "fmt"})
     ops.append({"op": "SET", "key": "fmt", "target": "unknown", "cls": 0, "fmt": "fmt"})
@@ -400,7 +404,11 @@ class Run:
         inst = model.inst
         if name == "REG":
             cls = classes[op["cls"]]
-            keys = op["keys"]
+            known_full = sorted(model.full)
+            keys = [
+                (known_full[op["cls"] % len(known_full)] if known_full else "x.y") if k == "@full" else k
+                for k in op["keys"]
+            ]
             ctor_fault.clear()
             raise_at = op.get("ctor_raises_at")
             if inst and raise_at is not None and raise_at < len(keys):
@@ -454,6 +462,10 @@ class Run:
         if name == "SET":
             key = op["key"]
             cls = classes[op["cls"]]
+            if key == "@full":
+                # a dotted name that IS a key of the registry (some plugin's full name) used as the short name
+                known_full = sorted(model.full)
+                key = known_full[op["cls"] % len(known_full)] if known_full else "x.y"
             if op["target"] == "known":
                 target = f"{full_name(cls)}_{op['fmt']}" if inst else full_name(cls)
             elif op["target"] == "plain":
